@@ -117,12 +117,17 @@ def leg(ctx, binp, tool, corr_broken):
     nfind = 0
     nqueryless = 0
     worst = None
+    changed_method = []      # requests with another method than the publisher's: a followed 301/302/303 of a POST
+    longest = 0              # the longest run of requests made for one address (a chain): at most ten
     for o, i in zip(ops, impl):
         w = o.split()
         mode, naddr, post, body = w[2], int(w[3]), w[4] == "1", w[7]
         resp, _, wire = i.partition(" | ")
         reqs = [x.split(":") for x in wire.split()]
         ctx.count_case(o + "|" + i, nontrivial=len(reqs) > 0)
+        if any(q[1] != ("POST" if post else "GET") for q in reqs):
+            changed_method.append((o, i))
+        longest = max(longest, len(reqs) // (naddr if mode == "all" and resp == "fin" else 1))
         if resp != "fin":
             continue
         meth = "POST" if post else "GET"
@@ -160,7 +165,13 @@ def leg(ctx, binp, tool, corr_broken):
         ctx.violation(key, "nsq_to_http (real binary) FINished a message although only %d of the %d required requests that carried "
                       "its body were accepted: the http.Client followed a redirect and dropped the body; wire = %s  [%d of %d "
                       "messages]" % (have, need, i, nfind, len(ops)), o + "\nobserved: " + i + "\n")
-    ctx.corr[name] = {"client_probe": probe, "client_translated": regen, "client_name": CLIENTS.get(regen), "lines": len(ops),
+    if probe in ACCEPTED and changed_method:
+        corr_broken.append("redirect leg: the client of this tree sent %d request(s) with another method than the publisher's "
+                           "(a redirect that changes the method was followed), e.g. `%s` -> %s" %
+                           (len(changed_method), changed_method[0][0][:160], changed_method[0][1][:200]))
+    if longest > 10 * 2:
+        corr_broken.append("redirect leg: %d requests for one Publish (the limit is ten)" % longest)
+    ctx.corr[name] = {"requests_with_changed_method": len(changed_method), "longest_wire": longest, "client_probe": probe, "client_translated": regen, "client_name": CLIENTS.get(regen), "lines": len(ops),
                       "fin_without_delivery": nfind, "get_fin_by_queryless_redirect": nqueryless,
                       "histogram": hist, "oracle": [l for l in log.splitlines() if l.startswith("ORACLE-DONE")]}
     if ops:
